@@ -238,3 +238,31 @@ package rdb
 //@ loop 0 invariant[nonempty] forall(k, 0, i, b.buckets[k].startOffset < b.buckets[k].endOffset)
 //@ loop 0 invariant[nosplit] forall(k, 0, i, 0 <= b.buckets[k].endOffset && b.buckets[k].endOffset <= len(b.values) && cut(b, b.buckets[k].endOffset))
 //@ loop 1 invariant[end] bucketStart <= bucketEnd && bucketEnd <= len(b.values) && (bucketStart < len(b.values) ==> bucketStart < bucketEnd)
+
+// ---- C08: applying a diff ---------------------------------------------------------------------------------
+// Batch.ApplyDiff: every map record of a "+" entry becomes one Add, of a "-" entry one Del, nothing else.
+//@ func Batch.ApplyDiff
+//@ flag skip frame
+//@ requires batch != nil && d != nil
+//@ ensures[add] d.Op == dbdiff.AddOp ==> len(batch.addedPairs) == old(len(batch.addedPairs)) + len(d.Records) && len(batch.deletedPairs) == old(len(batch.deletedPairs))
+//@ ensures[del] d.Op == dbdiff.DelOp ==> len(batch.deletedPairs) == old(len(batch.deletedPairs)) + len(d.Records) && len(batch.addedPairs) == old(len(batch.addedPairs))
+//@ ensures[other] d.Op != dbdiff.AddOp && d.Op != dbdiff.DelOp ==> len(batch.addedPairs) == old(len(batch.addedPairs)) && len(batch.deletedPairs) == old(len(batch.deletedPairs))
+//@ loop 0 invariant 0 <= idx && idx <= len(d.Records) && d.Op == old(d.Op) && d.Records == old(d.Records) && len(batch.addedPairs) == old(len(batch.addedPairs)) + ite(d.Op == dbdiff.AddOp, idx, 0) && len(batch.deletedPairs) == old(len(batch.deletedPairs)) + ite(d.Op == dbdiff.DelOp, idx, 0)
+
+// RDB.ApplyDiff: each diff line is parsed AND converted before the scanner moves on (the entry only borrows the
+// scanner's buffer: see package dbdiff), the whole diff goes to the store as one batch, and a line that does not
+// parse or convert, or a read error, means nothing is written.
+//@ func initCodec
+//@ trusted
+//@ pure
+//@ ensures result != nil
+//@ func RDB.IsV2KeySyntaxUsed
+//@ trusted
+//@ pure
+//@ func RDB.ApplyDiff
+//@ updates scangen, linegen, dbWrites, dbLastOp
+//@ flag skip frame
+//@ requires rdb != nil && rdb.writeMutex != nil && rdb.db != nil && scangen >= 1
+//@ ensures[atomic] dbWrites == old(dbWrites) || (dbWrites == old(dbWrites) + 1 && dbLastOp == 3)
+//@ before RDB.ExecuteBatch#0 assert[complete] dbWrites == old(dbWrites)
+//@ loop 0 invariant scangen >= 1 && dbWrites == old(dbWrites) && batch != nil && codec != nil
